@@ -21,10 +21,70 @@ func propC11(c *Ctx) {
 	c.ruleC11Table(t)
 	c.ruleAccessorFaithful("C11-ACCESSOR-FAITHFUL")
 	c.ruleC11WalkUp()
+	c.ruleC11CursorSteps("C11-CURSOR-STEPS")
 	c.ruleC11Close()
 	c.ruleC10CopyReset() // the paste pass re-runs the same context resolution on copies
 	if m := c.E1Base(); m != nil {
 		c.ruleC11Paren(m)
+	}
+}
+
+// ruleC11CursorSteps: the context cursor is the whole state of the walk-up algorithm. It moves by steps - onto the
+// directive that has just been placed, one level up, or back to "no context" before a pass starts. A write of anything
+// else (a saved earlier value put back, a directive found elsewhere) makes the placement of the next directive depend
+// on something other than the text before it.
+func (c *Ctx) ruleC11CursorSteps(rule string) {
+	r := c.R
+	r.Rule(rule, "every assignment to the context cursor (core.currentContextDirective) assigns nil, <expr>.Parent, or the directive parameter of the enclosing function (the directive being placed): the cursor is never restored from a saved copy nor set to a directive obtained elsewhere", 5)
+	cur := c.coreField("currentContextDirective")
+	if cur == nil {
+		r.Undecided(rule, "anchor", "field core.JApiCore.currentContextDirective not found", "")
+		return
+	}
+	n := 0
+	for _, f := range c.libFns() {
+		pk := f.Pkg
+		ast.Inspect(f.Decl.Body, func(nd ast.Node) bool {
+			as, ok := nd.(*ast.AssignStmt)
+			if !ok {
+				return true
+			}
+			for i, l := range as.Lhs {
+				if fieldSel(pk, l) != cur || i >= len(as.Rhs) {
+					continue
+				}
+				n++
+				rhs := unalias(f, as.Rhs[i])
+				key := fmt.Sprintf("%s | cursor = %s", f.Name(), exprString(as.Rhs[i]))
+				okStep := ""
+				switch x := rhs.(type) {
+				case *ast.Ident:
+					if isNil(pk, x) {
+						okStep = "reset to no context"
+					} else if pi := paramIndexOf(f, x); pi >= 0 && !paramAssigned(f, x) {
+						okStep = "the directive handed to the function"
+					}
+				case *ast.SelectorExpr:
+					if fld := fieldSel(pk, x); fld != nil && fld.Name() == "Parent" {
+						okStep = "one level up"
+					}
+				case *ast.UnaryExpr:
+					// &copy of the directive being placed (the paste pass works on copies)
+					if x.Op == token.AND {
+						okStep = "the address of the copy being placed"
+					}
+				}
+				if okStep != "" {
+					r.Ok(rule, key, okStep, c.pos(as.Pos()))
+				} else {
+					r.Bad(rule, key, "the context cursor is set to something that is neither nil, nor a Parent, nor the directive being placed (a saved earlier value put back?): the next directive is resolved from a context that the text before it did not lead to", c.pos(as.Pos()))
+				}
+			}
+			return true
+		})
+	}
+	if n == 0 {
+		r.Undecided(rule, "sites", "no assignment to the context cursor found", "")
 	}
 }
 
